@@ -693,6 +693,19 @@ def m_bytes(I, fv, args, kw):
         return ops.eq_values(I, pre, p)
     if name == "release":
         return NONE
+    if name == "rstrip" and len(args) == 1:
+        chars = I.resolve(args[0])
+        if isinstance(chars, VBytes) and chars.conc_len() == 1:
+            c = chars.at(0)
+            n = _iv(vb.length())
+            k = z3.Int(fresh("rstrip"))
+            q = z3.Int(fresh("q"))
+            I.path.assume(z3.And(k >= 0, k <= n))
+            I.path.assume(z3.ForAll([q], z3.Implies(z3.And(q >= n - k, q < n), vb.at(q) == c)))
+            I.path.assume(z3.Or(k == n, vb.at(z3.simplify(n - k - 1)) != c))
+            return I.slice_bytes(vb.with_kind("bytes" if vb.kind != "bytearray" else "bytearray"), 0, z3.simplify(n - k))
+        if isinstance(chars, VBytes) and chars.conc_len() == 0:
+            return vb
     raise Unsupported(f"bytes method {name}")
 
 
